@@ -113,6 +113,7 @@ type Machine struct {
 	dlogs                []*dlog
 	stdin, stdout        []value
 	stdoutBroken         bool
+	capUnknown           map[*value]bool
 	specLog              *[]specStoreRec
 	syncObjs             map[*value]*syncObj
 	stdinChunk           int
